@@ -477,7 +477,7 @@ C10_SwapSettle(s, e, t) ==
 CONSTANTS Owners, Symbols, Scales, Initials, Maxes, Amounts, EditMaxes, EditMint, MintTo, TransferTo,
           MaxTokens, InitStake, BaseFee, TaxNum, TaxDen, MintNum, MintDen, TaxNums,
           Acts, Prologue, PScaleA, PScaleB, ConvAmounts, ConvTo,
-          RegIn, RegOut, RegRn, RegRd, SwapAmounts, MaxRej
+          RegIn, RegOut, RegRn, RegRd, SwapAmounts, MaxRej, Sample
 
 Denoms == MinUnitsC \cup {STAKE}
 Accts == Users \cup {TOK, FEEP}
@@ -530,33 +530,38 @@ PrologueStep ==
 
 On(a) == a \in Acts
 
+(* Generator configs (Sample = TRUE) draw one random value per quantifier instead
+   of enumerating the product of all argument sets at every step of a simulation;
+   exhaustive configs (Sample = FALSE) enumerate. *)
+Pick(S) == IF Sample /\ S # {} THEN {RandomElement(S)} ELSE S
+
 Issue ==
   /\ On("Issue") /\ Cardinality(DOMAIN st.tok) < MaxTokens
-  /\ \E who \in Owners, sym \in Symbols, mu \in MinUnitsC, sc \in Scales,
-        ini \in Initials, mx \in Maxes, mt \in {"true", "false"} :
+  /\ \E who \in Owners, sym \in Symbols, mu \in MinUnitsC, sc \in Pick(Scales),
+        ini \in Pick(Initials), mx \in Pick(Maxes), mt \in Pick({"true", "false"}) :
        /\ ~(mx = 0 /\ mt = "true")      \* MaxUint64 is not representable
        /\ Step([NoEv EXCEPT !.name = "Issue", !.who = who, !.sym = sym, !.mu = mu, !.scale = sc,
                          !.initial = ini, !.max = mx, !.mintable = mt, !.fee = IssueFee(st)])
 Edit ==
   /\ On("Edit")
-  /\ \E who \in Users, sym \in DOMAIN st.tok, mx \in EditMaxes, mt \in EditMint :
+  /\ \E who \in Users, sym \in DOMAIN st.tok, mx \in Pick(EditMaxes), mt \in Pick(EditMint) :
        Step([NoEv EXCEPT !.name = "Edit", !.who = who, !.sym = sym, !.max = mx, !.mintable = mt])
 TransferOwner ==
   /\ On("TransferOwner")
-  /\ \E who \in Users, sym \in DOMAIN st.tok, to \in TransferTo :
+  /\ \E who \in Users, sym \in DOMAIN st.tok, to \in Pick(TransferTo) :
        Step([NoEv EXCEPT !.name = "TransferOwner", !.who = who, !.sym = sym, !.to = to])
 Mint ==
   /\ On("Mint")
-  /\ \E who \in Users, mu \in DOMAIN st.byMinUnit, a \in Amounts, to \in MintTo :
+  /\ \E who \in Users, mu \in DOMAIN st.byMinUnit, a \in Pick(Amounts), to \in Pick(MintTo) :
        Step([NoEv EXCEPT !.name = "Mint", !.who = who, !.mu = mu, !.amt = a, !.to = to,
                          !.fee = MintFee(st)])
 Burn ==
   /\ On("Burn")
-  /\ \E who \in Users, mu \in DOMAIN st.byMinUnit, a \in Amounts :
+  /\ \E who \in Users, mu \in DOMAIN st.byMinUnit, a \in Pick(Amounts) :
        Step([NoEv EXCEPT !.name = "Burn", !.who = who, !.mu = mu, !.amt = a])
 SwapFee ==
   /\ On("SwapFee")
-  /\ \E who \in Users, mu \in DOMAIN st.registry, a \in SwapAmounts, to \in ConvTo \cup {""} :
+  /\ \E who \in Users, mu \in DOMAIN st.registry, a \in Pick(SwapAmounts), to \in Pick(ConvTo \cup {""}) :
        Step([NoEv EXCEPT !.name = "SwapFee", !.who = who, !.mu = mu, !.amt = a, !.to = to])
 Deploy ==
   /\ On("Deploy")
@@ -565,19 +570,19 @@ Deploy ==
                          !.scale = TokOf(st, mu).scale])
 ToERC20 ==
   /\ On("ToERC20")
-  /\ \E who \in Users, to \in ErcAddrs(st), mu \in DOMAIN st.byMinUnit, a \in ConvAmounts :
+  /\ \E who \in Users, to \in Pick(ErcAddrs(st)), mu \in DOMAIN st.byMinUnit, a \in Pick(ConvAmounts) :
        Step([NoEv EXCEPT !.name = "ToERC20", !.who = who, !.to = to, !.mu = mu, !.amt = a])
 FromERC20 ==
   /\ On("FromERC20")
-  /\ \E who \in Users, to \in ConvTo, mu \in DOMAIN st.byMinUnit, a \in ConvAmounts :
+  /\ \E who \in Users, to \in Pick(ConvTo), mu \in DOMAIN st.byMinUnit, a \in Pick(ConvAmounts) :
        Step([NoEv EXCEPT !.name = "FromERC20", !.who = who, !.to = to, !.mu = mu, !.amt = a])
 Hook ==
   /\ On("Hook")
-  /\ \E who \in ErcAddrs(st), to \in ConvTo, mu \in DOMAIN st.byMinUnit, a \in ConvAmounts :
+  /\ \E who \in ErcAddrs(st), to \in Pick(ConvTo), mu \in DOMAIN st.byMinUnit, a \in Pick(ConvAmounts) :
        Step([NoEv EXCEPT !.name = "Hook", !.who = who, !.to = to, !.mu = mu, !.amt = a])
 SetParams ==
   /\ On("SetParams")
-  /\ \E b \in BOOLEAN, n \in TaxNums :
+  /\ \E b \in Pick(BOOLEAN), n \in Pick(TaxNums) :
        /\ (b # st.params.erc20 \/ n # st.params.taxNum)
        /\ Step([NoEv EXCEPT !.name = "SetParams",
                             !.p = [st.params EXCEPT !.erc20 = b, !.taxNum = n]])
